@@ -20,11 +20,27 @@
 // byte flips, truncation, swap-in), the proof against the previous root, the iterator
 // stream (full and seeked) and the iterator's own leaf proofs. Model-free seeded random
 // walks over larger key universes use the same oracle with a Go map as reference.
+//
+// Two further model families use the same oracle on every live handle / version after
+// every step (families.go, famrun.go):
+//   - spec/Trie/TrieCopy.tla: two handles that share their in-memory nodes
+//     (SecureTrie.Copy, cpy := *trie) taken in any state; each handle must keep reading its
+//     own content whatever is done through the other one, also after Commit + reopen;
+//   - spec/Trie/TrieDb.tla: the reference counting node cache of trie.Database with several
+//     committed versions alive at once (Reference / Dereference / Cap / Database.Commit /
+//     restart), including two versions with the same root; every version that is still
+//     referenced must open and read its own content, from the cache and -- once it was
+//     written -- from a new Database over the disk.
+//
+// Their replay jobs run in child processes (libs/ser serialises encoders of one process).
+// For each family a configuration with a switch of the specification flipped (a write in
+// place; a root counted once) must make TLC report the invariant violated.
 package c10
 
 import (
 	"encoding/json"
 	"fmt"
+	"io/ioutil"
 	"math/rand"
 	"os"
 	"runtime/debug"
@@ -159,6 +175,10 @@ type job struct {
 	idx    int
 }
 
+type describer interface {
+	describe() map[string]interface{}
+}
+
 type jobResult struct {
 	st         stats
 	behaviours int
@@ -170,7 +190,7 @@ type jobResult struct {
 }
 
 func (j *job) describe() map[string]interface{} {
-	d := map[string]interface{}{"trie": j.kind, "universe": j.uni.name, "keys_hex": hexList(j.uni.keys), "values_hex": hexList(j.uni.vals), "cache_limit": j.limit, "observe_through_copy": !j.direct}
+	d := map[string]interface{}{"family": "one-handle", "trie": j.kind, "universe": j.uni.name, "keys_hex": hexList(j.uni.keys), "values_hex": hexList(j.uni.vals), "cache_limit": j.limit, "observe_through_copy": !j.direct}
 	if j.m != nil {
 		d["model"] = j.m.name
 	}
@@ -377,12 +397,17 @@ func negativeControl(c *core.Ctx, m *model) {
 func run(c *core.Ctx) {
 	o := c.Out()
 	o.Level = "model_checking"
-	o.Rule = "behaviour = path through a TLC-exported graph of Trie (transition tour + seeded walks) or a model-free seeded walk, replayed on one (trie kind, key/value universe, cache limit, observation mode); non-trivial = contains at least one update or delete; distinct = distinct (job, edge sequence)"
+	o.Rule = "behaviour = path through a TLC-exported graph of Trie / TrieCopy / TrieDb (transition tour + seeded walks) or a model-free seeded walk, replayed on one (trie kind, key/value universe, cache limit, observation mode[, disk batch flavour]); non-trivial = contains at least one update or delete (Trie), a handle copy (TrieCopy), a Reference (TrieDb); distinct = distinct (job, edge sequence)"
 	o.Assumptions = []string{
 		"key order of the iterator = order of the nibble paths with terminator (bytewise order; a key that is a proper prefix of other keys is enumerated after them, as libs/trie/iterator_test.go fixes it)",
 		"the verifier's proof node set is content addressed (every received node is stored under its own Keccak hash); VerifyProof itself does not re-hash",
 		"Keccak-256 collision freedom is trusted (the specification uses the collapsed node itself as its hash)",
-		"Database.Dereference / Cap (not used by the node) are not exercised",
+		"handle copies: a plain Trie is copied the way SecureTrie.Copy copies the Trie it embeds (cpy := *t)",
+		"database versions: a version is dereferenced only while no open trie is based on it (the discipline of geth's blockchain.go); external references from account leaves to storage tries (Reference(child, parent) with a non-zero parent) are not exercised",
+	}
+	if strings.HasPrefix(c.Child, "fam:") {
+		famChild(c)
+		return
 	}
 	if c.Replay != "" {
 		replayFile(c)
@@ -392,18 +417,20 @@ func run(c *core.Ctx) {
 
 	// ---- job runner; the model-free walks start at once and overlap with TLC ----
 	var (
-		jobs    []*job
+		jobs    []describer
 		results []*jobResult
 		jmu     sync.Mutex
 		jwg     sync.WaitGroup
 	)
+	tourInfo := map[string]map[string]int{}
 	limits := []uint16{0, 1, 2, 120}
 	tabs := &tables{m: map[string]*rootTable{}}
 	sem := make(chan struct{}, 14)
-	launch := func(j *job) {
+	start := func(d describer, setIdx func(int), runIt func() *jobResult) {
 		jmu.Lock()
-		j.idx = len(jobs)
-		jobs = append(jobs, j)
+		idx := len(jobs)
+		setIdx(idx)
+		jobs = append(jobs, d)
 		results = append(results, nil)
 		jmu.Unlock()
 		jwg.Add(1)
@@ -411,14 +438,35 @@ func run(c *core.Ctx) {
 			defer jwg.Done()
 			sem <- struct{}{}
 			defer func() { <-sem }()
-			r := runJob(c, j, tabs)
+			r := runIt()
 			if os.Getenv("VERIF_C10_VERBOSE") != "" {
-				fmt.Fprintf(os.Stderr, "[%6.1fs] job %d %v/%s/%s done: %d steps in %.1fs\n", time.Since(c.Start).Seconds(), j.idx, j.describe()["model"], j.uni.name, j.kind, r.st.steps, r.wall)
+				dd := d.describe()
+				fmt.Fprintf(os.Stderr, "[%6.1fs] job %d %v/%v/%v/%v done: %d steps in %.1fs\n", time.Since(c.Start).Seconds(), idx, dd["family"], dd["model"], dd["universe"], dd["trie"], r.st.steps, r.wall)
 			}
 			jmu.Lock()
-			results[j.idx] = r
+			results[idx] = r
 			jmu.Unlock()
 		}()
+	}
+	launch := func(j *job) {
+		start(j, func(i int) { j.idx = i }, func() *jobResult { return runJob(c, j, tabs) })
+	}
+	// the jobs of the copy / versions families run in processes of their own
+	famDir, err := ioutil.TempDir("", "c10fam")
+	if err != nil {
+		c.Infra("scratch directory: %v", err)
+		return
+	}
+	defer os.RemoveAll(famDir)
+	csem := make(chan struct{}, 8)
+	launchFam := func(j *famJob) {
+		start(j, func(i int) { j.Idx = i }, func() *jobResult {
+			<-sem // a child process does not take part in this process's lock
+			defer func() { sem <- struct{}{} }()
+			csem <- struct{}{}
+			defer func() { <-csem }()
+			return runFamChild(c, j, famDir)
+		})
 	}
 	part := os.Getenv("VERIF_C10_PART") // development aid: "model" or "free" runs only that half
 	for ui, u := range bigUniverses() {
@@ -429,15 +477,40 @@ func run(c *core.Ctx) {
 		}
 	}
 
+	// model-free walks of the two families (handle copies, database versions) on the same universes
+	for ui := range bigUniverses() {
+		for ki, kind := range []string{"plain", "secure"} {
+			for fi, fam := range []string{"copy", "versions"} {
+				if part == "model" {
+					continue
+				}
+				launchFam(&famJob{Family: fam, Uni: ui, Kind: kind, Limit: limits[(ui+ki+fi+1)%len(limits)], Direct: (ui+ki+fi)%3 == 0, CopyBatch: (ui+ki)%2 == 1, Steps: c.Pick(400, 4000)})
+			}
+		}
+	}
+
 	type spec struct {
 		module, cfg string
 		workers     int
+		family      string // "": Trie.tla (one handle); "copy": TrieCopy.tla; "versions": TrieDb.tla
+		// expect != "": a configuration in which the named switch of the specification is flipped
+		// (a mutant of the MODEL): TLC must report the named invariant as violated, otherwise the
+		// model could not have noticed the corresponding class of defects
+		expect string
 	}
-	specs := []spec{{"MC_TrieQuick", "MC_TrieQuick.cfg", 1}, {"MC_TrieQuickB", "MC_TrieQuickB.cfg", 1}}
+	specs := []spec{{"MC_TrieQuick", "MC_TrieQuick.cfg", 1, "", ""}, {"MC_TrieQuickB", "MC_TrieQuickB.cfg", 1, "", ""},
+		{"MC_TrieDb", "MC_TrieDbDisk.cfg", 1, "versions", ""}, {"MC_TrieDb", "MC_TrieDb.cfg", 1, "versions", ""},
+		{"MC_TrieDbC", "MC_TrieDbC.cfg", 1, "versions", ""},
+		{"MC_TrieCopy", "MC_TrieCopy.cfg", 1, "copy", ""}, {"MC_TrieCopyB", "MC_TrieCopyB.cfg", 1, "copy", ""},
+		{"MC_TrieCopy", "MC_TrieCopy_inplace_insert.cfg", 1, "copy", "Canonical"},
+		{"MC_TrieCopy", "MC_TrieCopy_inplace_delete.cfg", 1, "copy", "Canonical"},
+		{"MC_TrieDb", "MC_TrieDb_rootonce.cfg", 1, "versions", "VersionsOpenable"}}
 	if c.Thorough() {
 		// the big instances are on the critical path: several TLC workers (every PrintT line is
 		// written atomically; loadModel puts an edge that leaves the initial state first)
-		specs = append(specs, spec{"MC_TrieBig", "MC_TrieBig.cfg", 4}, spec{"MC_TrieBigB", "MC_TrieBigB.cfg", 2})
+		specs = append(specs, spec{"MC_TrieBig", "MC_TrieBig.cfg", 4, "", ""}, spec{"MC_TrieBigB", "MC_TrieBigB.cfg", 2, "", ""},
+			spec{"MC_TrieCopy", "MC_TrieCopyBig.cfg", 4, "copy", ""}, spec{"MC_TrieDb", "MC_TrieDbBig.cfg", 4, "versions", ""},
+			spec{"MC_TrieDb", "MC_TrieDbBigB.cfg", 4, "versions", ""}, spec{"MC_TrieDbC", "MC_TrieDbCBig.cfg", 4, "versions", ""})
 	}
 	// schedule creates the replay jobs of one model as soon as its TLC run is through, so
 	// that replay overlaps with the longer TLC runs
@@ -468,18 +541,105 @@ func run(c *core.Ctx) {
 			launch(j)
 		}
 	}
+	// the replay jobs of a copy / versions model: the jobs share the tour. Every edge is
+	// replayed on at least 2 instantiations (a plain and a secure trie); the quick tier replays
+	// the disk instance of the versions family once per edge (plain and secure alternate).
+	scheduleFam := func(mi int, m *famModel) {
+		m.tour = m.g.Tour(c.Pick(1200, 3000), rand.New(rand.NewSource(c.Seed+int64(mi))))
+		pick := []int{0, 3, 5, 6}
+		if c.Thorough() {
+			pick = []int{0, 1, 2, 3, 4, 5, 6}
+		}
+		var mj []*famJob
+		for n, ui := range pick {
+			for ki, kind := range []string{"plain", "secure"} {
+				mj = append(mj, &famJob{Family: m.family, Model: m.name, Meta: m.meta, Uni: ui, Kind: kind, Limit: limits[(ui+ki+mi)%len(limits)],
+					Direct: (n+ki)%3 == 2, CopyBatch: (n+ki)%2 == 1})
+			}
+		}
+		if part == "free" {
+			return
+		}
+		share := len(mj) / 2
+		once := !c.Thorough() && len(m.tour) > 4000
+		if once {
+			share = len(mj)
+		}
+		if c.Thorough() && len(m.g.Edges) <= 30000 {
+			share = 1
+		}
+		total := 0
+		for k, j := range mj {
+			// job k replays the pieces of its residue: a plain and a secure job per residue
+			offset := k/2 + k%2*(len(mj)/4)
+			if once {
+				offset = k
+			}
+			rng := rand.New(rand.NewSource(c.Seed*31 + int64(k)))
+			for pi, piece := range m.tour {
+				if share <= 1 || pi%share == offset%share {
+					j.Beh = append(j.Beh, m.steps(piece))
+					total += len(piece)
+				}
+			}
+			for _, w := range m.g.Walks(c.Pick(10, 120), 40, rng) {
+				j.Beh = append(j.Beh, m.steps(w))
+			}
+			launchFam(j)
+		}
+		jmu.Lock()
+		tourInfo[m.name] = map[string]int{"pieces": len(m.tour), "steps_replayed_over_all_jobs": total, "jobs": len(mj)}
+		jmu.Unlock()
+	}
 	models := make([]*model, len(specs))
+	famModels := make([]*famModel, len(specs))
 	var wg sync.WaitGroup
+	var sensitivity []string
+	// the model-sensitivity runs are short and off the critical path: one after the other
+	// (fewer JVMs at a time)
+	var sensTurn sync.Mutex
 	for i, s := range specs {
+		if part == "free" && s.expect != "" {
+			continue
+		}
 		wg.Add(1)
 		go func(i int, s spec) {
 			defer wg.Done()
+			if s.expect != "" {
+				sensTurn.Lock()
+				defer sensTurn.Unlock()
+			}
 			res := c.TLC(tlc.Options{SpecDir: c.SpecDir("Trie"), Module: s.module, Config: s.cfg, Workers: s.workers, Timeout: c.MinutesT(10, 22)})
 			if res == nil {
 				return
 			}
+			if s.expect != "" {
+				if res.Violated != s.expect {
+					c.Infra("vacuous model: %s with %s (a switch of the specification flipped) must violate %s, TLC reports %q\n%s", s.module, s.cfg, s.expect, res.Violated, res.Tail)
+				}
+				jmu.Lock()
+				sensitivity = append(sensitivity, fmt.Sprintf("%s: TLC reports %s violated after %d states", s.cfg, res.Violated, res.Distinct))
+				jmu.Unlock()
+				return
+			}
 			if res.Violated != "" || !res.Finished || res.TimedOut {
 				c.Infra("Trie model %s: %s\n%s", s.module, res.Describe(), res.Tail)
+				return
+			}
+			if s.family != "" {
+				m, err := loadFamModel(s.family, strings.TrimSuffix(s.cfg, ".cfg"), res.Lines)
+				if err != nil {
+					c.Infra("Trie model %s: %v", s.module, err)
+					return
+				}
+				famModels[i] = m
+				if os.Getenv("VERIF_C10_VERBOSE") != "" {
+					fmt.Fprintf(os.Stderr, "[%6.1fs] %s: %s\n", time.Since(c.Start).Seconds(), s.module, res.Describe())
+				}
+				if !strings.Contains(s.cfg, "Big") {
+					famNegativeControl(c, m)
+				}
+				scheduleFam(i, m)
 				return
 			}
 			m, err := loadModel(s.module, res.Lines)
@@ -501,7 +661,23 @@ func run(c *core.Ctx) {
 	jwg.Wait()
 	o.Exhaustive = true
 	modelInfo := map[string]interface{}{}
-	for _, m := range models {
+	for i, m := range famModels {
+		if specs[i].family == "" || specs[i].expect != "" {
+			continue
+		}
+		if m == nil {
+			o.Exhaustive = false
+			continue
+		}
+		modelInfo[m.name] = map[string]interface{}{"family": m.family, "keys": m.meta.Keys, "value_lengths": m.meta.VLen, "cache_limit": m.meta.Limit,
+			"projected_states": len(m.g.States), "projected_edges": len(m.g.Edges), "edges_by_action": m.g.ActionKinds("op"), "tour": tourInfo[m.name]}
+	}
+	sort.Strings(sensitivity)
+	c.SetExtra("model_sensitivity", sensitivity)
+	for i, m := range models {
+		if specs[i].family != "" {
+			continue
+		}
 		if m == nil {
 			o.Exhaustive = false
 			continue
@@ -529,7 +705,8 @@ func run(c *core.Ctx) {
 	}
 	var slow []jw
 	for i, r := range results {
-		slow = append(slow, jw{fmt.Sprintf("%v", jobs[i].describe()["universe"]) + "/" + jobs[i].kind, r.wall, r.st.steps})
+		dd := jobs[i].describe()
+		slow = append(slow, jw{fmt.Sprintf("%v/%v/%v", dd["family"], dd["universe"], dd["trie"]), r.wall, r.st.steps})
 	}
 	sort.Slice(slow, func(a, b int) bool { return slow[a].wall > slow[b].wall })
 	if len(slow) > 3 {
@@ -558,7 +735,10 @@ func run(c *core.Ctx) {
 	c.SetExtra("oracle_counts", map[string]int{"steps": total.steps, "lookups": total.gets, "roots_compared": total.roots, "proofs_verified": total.proofs,
 		"tampered_proofs_checked": total.tampers, "proofs_against_other_root": total.crossRoot, "iterations": total.iters,
 		"iterator_leaf_proofs": total.leafProofs, "old_roots_reopened_from_disk": total.oldRoots,
-		"empty_trie_proofs_rejected": total.emptyProofRejected, "proofs_identical_to_an_already_tampered_one": total.proofsSeenBefore})
+		"empty_trie_proofs_rejected": total.emptyProofRejected, "proofs_identical_to_an_already_tampered_one": total.proofsSeenBefore,
+		"handle_copies": total.copies, "observations_of_a_handle_next_to_another": total.handleObs,
+		"references": total.references, "dereferences": total.dereferences, "caps": total.caps, "restarts": total.restarts,
+		"referenced_versions_opened": total.versionsOpened, "referenced_versions_opened_from_disk": total.versionsFromDisk})
 	c.SetExtra("root_table", map[string]interface{}{"distinct_contents": contents, "contents_reached_again_by_another_history": revisits, "per_table": tabNames})
 	if total.proofLenDrift > 0 {
 		c.Drift("proof length differs from the specification's on %d prove steps of structural universes (embedding rule), e.g. %s", total.proofLenDrift, total.driftExample)
